@@ -24,7 +24,17 @@ REGIONS = {
     "spole": (0.0, 360.0, -90.0, -78.0),
     "wide": (0.0, 360.0, -90.0, 90.0),
     "strip": (100.0, 160.0, 20.0, 30.0),
+    # compact clumps 3.3 degrees apart (sigma 0.4 deg, clipped at 2 sigma) along dec = 25: whether neighbouring
+    # patches are linked depends on the angular size of the physical scale, i.e. on redshift
+    "clumps": (100.0, 142.0, 22.0, 28.0),
 }
+CLUMP_SPACING_DEG = 3.3
+CLUMP_SIGMA_DEG = 0.4
+
+
+def clump_centers(k: int) -> np.ndarray:
+    """(k, 2) array in degrees"""
+    return np.column_stack([100.0 + CLUMP_SPACING_DEG * np.arange(k), np.full(k, 25.0)])
 
 
 def gen_records(
@@ -41,6 +51,7 @@ def gen_records(
     edge_frac: float = 0.12,
     coord_dtype: str = "f8",
     w_kind: str = "dyadic",
+    nclumps: int = 4,
 ) -> dict[str, np.ndarray]:
     """Columns ``ra``/``dec`` in degrees and optional ``w``/``z``.
 
@@ -64,6 +75,13 @@ def gen_records(
     if region in ("wrap", "wide", "npole", "spole"):
         ra[special[2]] = 0.0
         ra[special[3]] = 359.99999999999994
+    if region == "clumps":
+        # (separate generator: leaves the streams of all other regions untouched)
+        crng = np.random.default_rng([int(data_seed) & 0xFFFFFFFF, 0xC1A9])
+        which = crng.integers(0, max(1, nclumps), NMAX)
+        cc = clump_centers(max(1, nclumps))
+        ra = cc[which, 0] + CLUMP_SIGMA_DEG * np.clip(crng.normal(size=NMAX), -2.0, 2.0)
+        dec = cc[which, 1] + CLUMP_SIGMA_DEG * np.clip(crng.normal(size=NMAX), -2.0, 2.0)
     if coord_dtype.startswith("i"):
         ra, dec = np.floor(ra), np.clip(np.rint(dec), -90, 90)
     out = {"ra": ra[:n].astype(coord_dtype), "dec": dec[:n].astype(coord_dtype)}
@@ -93,6 +111,8 @@ def gen_records(
 
 def gen_centers(center_seed: int, k: int, region: str = "box") -> np.ndarray:
     """``k`` patch centres inside the region, (k, 2) array in radian."""
+    if region == "clumps":
+        return np.deg2rad(clump_centers(k))
     rng = np.random.default_rng([int(center_seed) & 0xFFFFFFFF, 0xCE27])
     ra0, ra1, de0, de1 = REGIONS[region]
     u = rng.uniform(0.0, 1.0, 16)
